@@ -61,14 +61,23 @@ theorem get_core (data body : Bytes) (st size L : Nat) (hp : data = body.take L)
   rw [this]
   exact slice_lemma body st size L h1 h2
 
-theorem Sectors.get_spec (s : Sectors) (id : Nat) (rd body : Bytes) (h : s.data ++ rd = body) :
+theorem Sectors.get_size (s : Sectors) (id : Nat) (rd : Bytes) : (s.get id rd).2.1.size = s.size := rfl
+
+theorem Sectors.get_lazy (s : Sectors) (id : Nat) (rd : Bytes) : (s.get id rd).2.1.lazy = s.lazy := rfl
+
+/-- `Sectors::get` returns the sector of the underlying area whatever has been cached — for a lazily filled cache
+    (the sectors of the file), or when the sector is already held (the mini stream, which never reads) -/
+theorem Sectors.get_spec (s : Sectors) (id : Nat) (rd body : Bytes) (h : s.data ++ rd = body)
+    (hl : s.lazy = true ∨ (id + 1) * s.size ≤ s.data.length) :
     (s.get id rd).1 = sec body s.size id ∧ (s.get id rd).2.1.data ++ (s.get id rd).2.2 = body ∧
     (s.get id rd).2.1.size = s.size := by
   subst h
   unfold Sectors.get sec
-  generalize id * s.size = st
+  rw [Nat.add_mul, Nat.one_mul] at hl
+  generalize id * s.size = st at hl ⊢
   by_cases hc : st + s.size > s.data.length
-  · simp only [hc, if_true]
+  · have hlz : s.lazy = true := by rcases hl with h | h; exact h; omega
+    simp only [hc, hlz, and_self, if_true]
     refine ⟨?_, by simp, trivial⟩
     apply get_core _ _ _ _ (s.data.length + min (st + s.size - s.data.length) rd.length)
     · rw [List.take_append]
@@ -77,17 +86,20 @@ theorem Sectors.get_spec (s : Sectors) (id : Nat) (rd body : Bytes) (h : s.data 
       rw [e1, Nat.add_sub_cancel_left, ← List.take_eq_take_min]
     · simp only [List.length_append]; omega
     · simp only [List.length_append]; omega
-  · simp only [hc, if_false]
+  · simp only [hc, and_false, if_false]
     refine ⟨?_, trivial, trivial⟩
     apply get_core _ _ _ _ s.data.length
     · simp
     · simp only [List.length_append]; omega
     · simp only [List.length_append]; omega
+
 theorem Sectors.get_conserve (s : Sectors) (id : Nat) (rd : Bytes) :
     (s.get id rd).2.1.data.length + (s.get id rd).2.2.length = s.data.length + rd.length := by
-  have := (Sectors.get_spec s id rd _ rfl).2.1
-  have := congrArg List.length this
-  simpa using this
+  unfold Sectors.get
+  dsimp only
+  split
+  · simp only [List.length_append, List.length_take, List.length_drop]; omega
+  · rfl
 
 theorem Sectors.get_data_mono (s : Sectors) (id : Nat) (rd : Bytes) :
     s.data.length ≤ (s.get id rd).2.1.data.length := by
@@ -99,15 +111,19 @@ theorem Sectors.get_data_mono (s : Sectors) (id : Nat) (rd : Bytes) :
 
 /-- after reading sector `id` the cache covers it (when the file holds the whole sector) -/
 theorem Sectors.get_covers (s : Sectors) (id : Nat) (rd body : Bytes) (h : s.data ++ rd = body)
+    (hl : s.lazy = true ∨ (id + 1) * s.size ≤ s.data.length)
     (hfull : (id + 1) * s.size ≤ body.length) : (id + 1) * s.size ≤ (s.get id rd).2.1.data.length := by
   subst h
   unfold Sectors.get
   dsimp only
-  rw [Nat.add_mul, Nat.one_mul] at hfull ⊢
+  rw [Nat.add_mul, Nat.one_mul] at hfull hl ⊢
   simp only [List.length_append] at hfull
   split
   · simp only [List.length_append, List.length_take]; omega
-  · omega
+  · rename_i hc
+    rcases hl with h | h
+    · simp only [h, true_and] at hc; omega
+    · omega
 
 theorem sec_full_length (body : Bytes) (ss id : Nat) (h : (id + 1) * ss ≤ body.length) : (sec body ss id).length = ss := by
   unfold sec
@@ -163,7 +179,7 @@ theorem chainLoop_params (fats : List Nat) :
             injection h with h; injection h with h0 h; injection h with h1 h2
             obtain ⟨p1, p2, p3, p4⟩ := ih _ _ _ _ _ _ _ heq
             subst h0 h1 h2
-            refine ⟨p1.trans (Sectors.get_spec s id rd _ rfl).2.2, ?_, ?_, ?_⟩
+            refine ⟨p1.trans (Sectors.get_size s id rd), ?_, ?_, ?_⟩
             · rw [p2]; exact Sectors.get_conserve s id rd
             · exact Nat.le_trans (Sectors.get_data_mono s id rd) p3
             · intro _
@@ -173,11 +189,42 @@ theorem chainLoop_params (fats : List Nat) :
           · cases h
           · cases h
 
+theorem chainLoop_lazy (fats : List Nat) :
+    ∀ (rem id : Nat) (s : Sectors) (rd : Bytes) (acc : Nat) (x : Bytes) (s' : Sectors) (rd' : Bytes),
+      Sectors.chainLoop fats rem id s rd acc = .ok (x, s', rd') → s'.lazy = s.lazy := by
+  intro rem
+  induction rem with
+  | zero =>
+    intro id s rd acc x s' rd' h
+    unfold Sectors.chainLoop at h
+    split at h
+    · injection h with h; injection h with _ h; injection h with h1 _; subst h1; rfl
+    · cases h
+  | succ rem ih =>
+    intro id s rd acc x s' rd' h
+    unfold Sectors.chainLoop at h
+    split at h
+    · injection h with h; injection h with _ h; injection h with h1 _; subst h1; rfl
+    · split at h
+      · cases h
+      · dsimp only at h
+        split at h
+        · cases h
+        · split at h
+          · rename_i rest s'' rd'' heq
+            injection h with h; injection h with _ h; injection h with h1 _
+            subst h1
+            exact (ih _ _ _ _ _ _ _ heq).trans (Sectors.get_lazy s id rd)
+          · cases h
+          · cases h
+          · cases h
+
 /-- following a recorded chain of DISTINCT sectors that the file holds entirely; `V` are the sectors already
     accumulated (covered by the cache), so that the accumulation guard of the fixed loop is seen to pass -/
 theorem chainLoop_follow_gen (fats : List Nat) (body : Bytes) :
     ∀ (ids V : List Nat) (rem : Nat) (s : Sectors) (rd : Bytes),
       s.data ++ rd = body → ids.length ≤ rem → 0 < s.size →
+      (s.lazy = true ∨ ∀ x ∈ ids, (x + 1) * s.size ≤ s.data.length) →
       (∀ i (h : i < ids.length), ids[i] ≠ ENDOFCHAIN ∧ fats[ids[i]]? = some (ids[i+1]?.getD ENDOFCHAIN)) →
       (V ++ ids).Nodup → (∀ v ∈ V, (v + 1) * s.size ≤ s.data.length) → (∀ x ∈ ids, (x + 1) * s.size ≤ body.length) →
       ∃ s' rd', Sectors.chainLoop fats rem (ids[0]?.getD ENDOFCHAIN) s rd (V.length * s.size) =
@@ -185,18 +232,22 @@ theorem chainLoop_follow_gen (fats : List Nat) (body : Bytes) :
   intro ids
   induction ids with
   | nil =>
-    intro V rem s rd hinv _ _ _ _ _ _
+    intro V rem s rd hinv _ _ _ _ _ _ _
     exact ⟨s, rd, by simp [chainLoop_end], hinv, rfl⟩
   | cons a rest ih =>
-    intro V rem s rd hinv hrem hss hch hnd hV hfull
+    intro V rem s rd hinv hrem hss hlz hch hnd hV hfull
+    have hla : s.lazy = true ∨ (a + 1) * s.size ≤ s.data.length := by
+      rcases hlz with h | h
+      · exact Or.inl h
+      · exact Or.inr (h a (by simp))
     obtain ⟨rem', rfl⟩ : ∃ r, rem = r + 1 := ⟨rem - 1, by simp at hrem; omega⟩
     have h0 := hch 0 (by simp)
     simp only [List.getElem_cons_zero, Nat.zero_add, List.getElem?_cons_succ] at h0
     obtain ⟨hne, hfat⟩ := h0
-    obtain ⟨hg1, hg2, hg3⟩ := Sectors.get_spec s a rd body hinv
+    obtain ⟨hg1, hg2, hg3⟩ := Sectors.get_spec s a rd body hinv hla
     have hafull := hfull a (by simp)
     have hslice : (s.get a rd).1.length = s.size := by rw [hg1]; exact sec_full_length body s.size a hafull
-    have hcovA := Sectors.get_covers s a rd body hinv hafull
+    have hcovA := Sectors.get_covers s a rd body hinv hla hafull
     have hmono := Sectors.get_data_mono s a rd
     have hnd' : ((V ++ [a]) ++ rest).Nodup := by simpa [List.append_assoc] using hnd
     have hV' : ∀ v ∈ V ++ [a], (v + 1) * s.size ≤ (s.get a rd).2.1.data.length := by
@@ -208,6 +259,11 @@ theorem chainLoop_follow_gen (fats : List Nat) (body : Bytes) :
     have hcnt := covered_count s.size _ hss (V ++ [a]) (List.Nodup.sublist (List.sublist_append_left _ _) hnd') hV'
     simp only [List.length_append, List.length_cons, List.length_nil, Nat.zero_add] at hcnt
     have hrest := ih (V ++ [a]) rem' (s.get a rd).2.1 (s.get a rd).2.2 hg2 (by simp at hrem; omega) (by rw [hg3]; exact hss)
+      (by
+        rw [Sectors.get_lazy, hg3]
+        rcases hlz with h | h
+        · exact Or.inl h
+        · exact Or.inr (fun x hx => Nat.le_trans (h x (by simp [hx])) hmono))
       (by
         intro i hi
         have := hch (i + 1) (by simp; omega)
@@ -226,11 +282,12 @@ theorem chainLoop_follow_gen (fats : List Nat) (body : Bytes) :
 
 theorem chainLoop_follow (fats : List Nat) (body : Bytes) (ids : List Nat) (rem : Nat) (s : Sectors) (rd : Bytes)
     (hinv : s.data ++ rd = body) (hrem : ids.length ≤ rem) (hss : 0 < s.size)
+    (hlz : s.lazy = true ∨ ∀ x ∈ ids, (x + 1) * s.size ≤ s.data.length)
     (hch : ∀ i (h : i < ids.length), ids[i] ≠ ENDOFCHAIN ∧ fats[ids[i]]? = some (ids[i+1]?.getD ENDOFCHAIN))
     (hnd : ids.Nodup) (hfull : ∀ x ∈ ids, (x + 1) * s.size ≤ body.length) :
     ∃ s' rd', Sectors.chainLoop fats rem (ids[0]?.getD ENDOFCHAIN) s rd 0 =
         .ok ((ids.map (sec body s.size)).flatten, s', rd') ∧ s'.data ++ rd' = body ∧ s'.size = s.size := by
-  have := chainLoop_follow_gen fats body ids [] rem s rd hinv hrem hss hch (by simpa using hnd) (by simp) hfull
+  have := chainLoop_follow_gen fats body ids [] rem s rd hinv hrem hss hlz hch (by simpa using hnd) (by simp) hfull
   simpa using this
 
 /-! ## sector-sized pieces -/
@@ -860,14 +917,14 @@ theorem nodup_of_owner (owner : Array Slot) (mk : Nat → Slot) (hinj : ∀ a b,
 
 theorem difatLoop_layout (streams : List Stream) (L : Layout) (hv : ValidP streams L) :
     ∀ (k j : Nat), j + k = L.ndif → ∀ (fuel : Nat) (s : Sectors) (rd : Bytes), k ≤ fuel →
-      s.data ++ rd = mainBody streams L → s.size = L.ss →
+      s.data ++ rd = mainBody streams L → s.size = L.ss → s.lazy = true →
       (∀ i, i < j → (difIdAt L i + 1) * L.ss ≤ s.data.length) →
       ∃ s' rd', difatLoop fuel (L.difIds[j]?.getD ENDOFCHAIN) (difatUpTo L j) s rd j =
           .ok (difatUpTo L L.ndif, s', rd') ∧ s'.data ++ rd' = mainBody streams L ∧ s'.size = L.ss := by
   intro k
   induction k with
   | zero =>
-    intro j hj fuel s rd _ hinv hsz _
+    intro j hj fuel s rd _ hinv hsz _ _
     have hj' : j = L.ndif := by omega
     subst hj'
     have : L.difIds[L.ndif]? = none := Array.getElem?_eq_none (by simp [Layout.ndif])
@@ -875,13 +932,13 @@ theorem difatLoop_layout (streams : List Stream) (L : Layout) (hv : ValidP strea
     refine ⟨s, rd, ?_, hinv, hsz⟩
     cases fuel <;> simp [difatLoop, ENDOFCHAIN, RESERVED]
   | succ k ih =>
-    intro j hj fuel s rd hrem hinv hsz hcov
+    intro j hj fuel s rd hrem hinv hsz hlz hcov
     obtain ⟨rem', rfl⟩ : ∃ r, fuel = r + 1 := ⟨fuel - 1, by omega⟩
     have hjlt : j < L.difIds.size := by simp only [Layout.ndif] at hj; omega
     obtain ⟨kk, hkk⟩ : ∃ kk, L.difIds[j]? = some kk := ⟨L.difIds[j], by simp [hjlt]⟩
     obtain ⟨hklt, hown⟩ := difId_lt streams L hv j kk hkk
     have hkkid : difIdAt L j = kk := by unfold difIdAt; rw [hkk]; rfl
-    obtain ⟨hg1, hg2, hg3⟩ := Sectors.get_spec s kk rd _ hinv
+    obtain ⟨hg1, hg2, hg3⟩ := Sectors.get_spec s kk rd _ hinv (Or.inl hlz)
     rw [hsz, mainBody_sec streams L kk _ hown] at hg1
     simp only [sectorOf] at hg1
     have hres : kk < RESERVED := by have := hv.total_le; omega
@@ -898,7 +955,7 @@ theorem difatLoop_layout (streams : List Stream) (L : Layout) (hv : ValidP strea
     have hlen := difSector_length L j
     have hfullk : (kk + 1) * s.size ≤ (mainBody streams L).length := by
       rw [mainBody_length, hsz, Nat.mul_comm]; exact Nat.mul_le_mul_left _ (by omega)
-    have hcovk := Sectors.get_covers s kk rd _ hinv hfullk
+    have hcovk := Sectors.get_covers s kk rd _ hinv (Or.inl hlz) hfullk
     have hmono := Sectors.get_data_mono s kk rd
     have hcov' : ∀ i, i < j + 1 → (difIdAt L i + 1) * L.ss ≤ (s.get kk rd).2.1.data.length := by
       intro i hi
@@ -916,7 +973,7 @@ theorem difatLoop_layout (streams : List Stream) (L : Layout) (hv : ValidP strea
       exact hcov' i hi)
     simp only [List.length_map, List.length_range] at hcnt
     obtain ⟨s', rd', he, hi', hs'⟩ := ih (j + 1) (by omega) rem' (s.get kk rd).2.1 (s.get kk rd).2.2 (by omega) hg2
-      (by rw [hg3, hsz]) hcov'
+      (by rw [hg3, hsz]) (by rw [Sectors.get_lazy]; exact hlz) hcov'
     refine ⟨s', rd', ?_, hi', hs'⟩
     rw [hkk]
     simp only [Option.getD_some]
@@ -978,21 +1035,21 @@ theorem fatId_spec (streams : List Stream) (L : Layout) (hv : ValidP streams L) 
   exact ⟨owner_lt _ _ _ ho, ho⟩
 
 theorem loadFats_layout (streams : List Stream) (L : Layout) (hv : ValidP streams L) :
-    ∀ (m a : Nat) (s : Sectors) (rd : Bytes), s.data ++ rd = mainBody streams L → s.size = L.ss →
+    ∀ (m a : Nat) (s : Sectors) (rd : Bytes), s.data ++ rd = mainBody streams L → s.size = L.ss → s.lazy = true →
       (∀ j, j < min a L.nfat → (fatIdAt L j + 1) * L.ss ≤ s.data.length) →
       ∃ s' rd', loadFats ((List.range' a m).map (fatIdAt L)) s rd (min a L.nfat * L.perFat) (L.nfat - min a L.nfat) =
           .ok (((List.range' a m).map fun j => if j < L.nfat then fatRow L j else []).flatten, s', rd') ∧
         s'.data ++ rd' = mainBody streams L ∧ s'.size = L.ss := by
   intro m
   induction m with
-  | zero => intro a s rd hinv hsz _; exact ⟨s, rd, by simp [loadFats], hinv, hsz⟩
+  | zero => intro a s rd hinv hsz _ _; exact ⟨s, rd, by simp [loadFats], hinv, hsz⟩
   | succ m ih =>
-    intro a s rd hinv hsz hcov
+    intro a s rd hinv hsz hlz hcov
     rw [List.range'_succ]
     simp only [List.map_cons, List.flatten_cons]
     by_cases ha : a < L.nfat
     · obtain ⟨hlt, hown⟩ := fatId_spec streams L hv a ha
-      obtain ⟨hg1, hg2, hg3⟩ := Sectors.get_spec s (fatIdAt L a) rd _ hinv
+      obtain ⟨hg1, hg2, hg3⟩ := Sectors.get_spec s (fatIdAt L a) rd _ hinv (Or.inl hlz)
       rw [hsz, mainBody_sec streams L _ _ hown] at hg1
       simp only [sectorOf] at hg1
       have hu : u32s (fatSector L a) = fatRow L a := by
@@ -1007,7 +1064,7 @@ theorem loadFats_layout (streams : List Stream) (L : Layout) (hv : ValidP stream
       have hmin' : min (a + 1) L.nfat = a + 1 := by omega
       have hfullk : (fatIdAt L a + 1) * s.size ≤ (mainBody streams L).length := by
         rw [mainBody_length, hsz, Nat.mul_comm]; exact Nat.mul_le_mul_left _ (by omega)
-      have hcovk := Sectors.get_covers s (fatIdAt L a) rd _ hinv hfullk
+      have hcovk := Sectors.get_covers s (fatIdAt L a) rd _ hinv (Or.inl hlz) hfullk
       have hmono := Sectors.get_data_mono s (fatIdAt L a) rd
       have hcov' : ∀ j, j < min (a + 1) L.nfat →
           (fatIdAt L j + 1) * L.ss ≤ (s.get (fatIdAt L a) rd).2.1.data.length := by
@@ -1026,7 +1083,7 @@ theorem loadFats_layout (streams : List Stream) (L : Layout) (hv : ValidP stream
         exact hcov' i (by omega))
       simp only [List.length_map, List.length_range] at hcnt
       obtain ⟨s', rd', he, hi', hs'⟩ := ih (a + 1) (s.get (fatIdAt L a) rd).2.1 (s.get (fatIdAt L a) rd).2.2 hg2
-        (by rw [hg3, hsz]) hcov'
+        (by rw [hg3, hsz]) (by rw [Sectors.get_lazy]; exact hlz) hcov'
       refine ⟨s', rd', ?_, hi', hs'⟩
       have hd : fatIdAt L a < DIFSECT := by have := hv.total_le; simp only [RESERVED, DIFSECT] at *; omega
       have hchk : ¬ ((a * L.perFat + L.perFat) * 4 > (s.get (fatIdAt L a) rd).2.1.data.length) := by
@@ -1039,7 +1096,7 @@ theorem loadFats_layout (streams : List Stream) (L : Layout) (hv : ValidP stream
       simp only [hg1, hu, hrow, hchk, if_false, he, ha, if_true]
     · have hmin : min a L.nfat = L.nfat := by omega
       have hmin' : min (a + 1) L.nfat = L.nfat := by omega
-      obtain ⟨s', rd', he, hi', hs'⟩ := ih (a + 1) s rd hinv hsz (by rw [hmin']; rw [hmin] at hcov; exact hcov)
+      obtain ⟨s', rd', he, hi', hs'⟩ := ih (a + 1) s rd hinv hsz hlz (by rw [hmin']; rw [hmin] at hcov; exact hcov)
       refine ⟨s', rd', ?_, hi', hs'⟩
       have hfree : fatIdAt L a = FREESECT := by
         unfold fatIdAt
@@ -1097,7 +1154,8 @@ theorem Space.getChain_gen (sp : Space) (ss : Nat) (hss : 0 < ss) (fill : UInt8)
     (hok : chainOK sp c (nsect ss D.length) = true)
     (len : Nat) (hlen : sp.owner.size ≤ len) (hres : sp.owner.size ≤ RESERVED)
     (s : Sectors) (rd extra : Bytes) (hsz : s.size = ss)
-    (hinv : s.data ++ rd = sp.body ss fill P fatSec difSec ++ extra) (len0 : Nat) :
+    (hinv : s.data ++ rd = sp.body ss fill P fatSec difSec ++ extra)
+    (hlz : s.lazy = true ∨ ss * sp.owner.size ≤ s.data.length) (len0 : Nat) :
     ∃ s' rd', s.getChain (chainStart sp c) (sp.fats len) rd len0 =
         .ok (if len0 > 0 then (padChunks ss fill D.length D).flatten.take len0
              else (padChunks ss fill D.length D).flatten, s', rd') ∧
@@ -1121,6 +1179,14 @@ theorem Space.getChain_gen (sp : Space) (ss : Nat) (hss : 0 < ss) (fill : UInt8)
     exact Nat.mul_le_mul_left ss (by omega)
   have hfol := chainLoop_follow (sp.fats len) _ (sp.ids c) (sp.fats len).length s rd hinv
     (by rw [Space.fats_length]; exact Nat.le_trans (Space.ids_length_le sp c _ hok) hlen) (by rw [hsz]; exact hss)
+    (by
+      rcases hlz with h | h
+      · exact Or.inl h
+      · right
+        intro x hx
+        have := Space.ids_lt sp c _ hok x hx
+        rw [hsz, Nat.mul_comm]
+        exact Nat.le_trans (Nat.mul_le_mul_left ss (by omega : x + 1 ≤ sp.owner.size)) h)
     (Space.fats_chain sp c _ len hok hlen hres) (Space.ids_nodup sp c _ hok) hfull
   obtain ⟨s', rd', he, hi, hs⟩ := hfol
   refine ⟨s', rd', ?_, hi, by rw [hs, hsz]⟩
@@ -1789,15 +1855,78 @@ theorem difatLoop_params : ∀ (fuel id : Nat) (difat : List Nat) (s : Sectors) 
       · split at h
         · cases h
         · obtain ⟨p1, p2, p3⟩ := ih _ _ _ _ _ _ _ _ h
-          exact ⟨p1.trans (Sectors.get_spec s id rd _ rfl).2.2, by rw [p2]; exact Sectors.get_conserve s id rd,
+          exact ⟨p1.trans (Sectors.get_size s id rd), by rw [p2]; exact Sectors.get_conserve s id rd,
             Nat.le_trans (Sectors.get_data_mono s id rd) p3⟩
     · injection h with h; injection h with _ h; injection h with h1 h2; subst h1 h2
       exact ⟨rfl, rfl, Nat.le_refl _⟩
 
+theorem getChain_lazy (s : Sectors) (start : Nat) (fats : List Nat) (rd : Bytes) (len : Nat)
+    (x : Bytes) (s' : Sectors) (rd' : Bytes) (h : s.getChain start fats rd len = .ok (x, s', rd')) :
+    s'.lazy = s.lazy := by
+  unfold Sectors.getChain at h
+  split at h
+  · rename_i chain s'' rd'' heq
+    injection h with h; injection h with _ h; injection h with h1 _
+    subst h1
+    exact chainLoop_lazy fats _ _ _ _ _ _ _ _ heq
+  · cases h
+  · cases h
+  · cases h
+
+theorem difatLoop_lazy : ∀ (fuel id : Nat) (difat : List Nat) (s : Sectors) (rd : Bytes) (count : Nat)
+    (d : List Nat) (s' : Sectors) (rd' : Bytes),
+    difatLoop fuel id difat s rd count = .ok (d, s', rd') → s'.lazy = s.lazy := by
+  intro fuel
+  induction fuel with
+  | zero =>
+    intro id difat s rd count d s' rd' h
+    unfold difatLoop at h
+    split at h
+    · cases h
+    · injection h with h; injection h with _ h; injection h with h1 _; subst h1; rfl
+  | succ fuel ih =>
+    intro id difat s rd count d s' rd' h
+    unfold difatLoop at h
+    split at h
+    · dsimp only at h
+      split at h
+      · cases h
+      · split at h
+        · cases h
+        · exact (ih _ _ _ _ _ _ _ _ h).trans (Sectors.get_lazy s id rd)
+    · injection h with h; injection h with _ h; injection h with h1 _; subst h1; rfl
+
+theorem loadFats_lazy : ∀ (ids : List Nat) (s : Sectors) (rd : Bytes) (acc n : Nat)
+    (x : List Nat) (s' : Sectors) (rd' : Bytes), loadFats ids s rd acc n = .ok (x, s', rd') → s'.lazy = s.lazy := by
+  intro ids
+  induction ids with
+  | nil =>
+    intro s rd acc n x s' rd' h
+    simp only [loadFats] at h
+    injection h with h; injection h with _ h; injection h with h1 _; subst h1; rfl
+  | cons id ids ih =>
+    intro s rd acc n x s' rd' h
+    unfold loadFats at h
+    split at h
+    · split at h
+      · injection h with h; injection h with _ h; injection h with h1 _; subst h1; rfl
+      · dsimp only at h
+        split at h
+        · cases h
+        · split at h
+          · rename_i rest s'' rd'' heq
+            injection h with h; injection h with _ h; injection h with h1 _
+            subst h1
+            exact (ih _ _ _ _ _ _ _ heq).trans (Sectors.get_lazy s id rd)
+          · cases h
+          · cases h
+          · cases h
+    · exact ih _ _ _ _ _ _ _ h
+
 theorem new_layout (streams : List Stream) (L : Layout) (hv : ValidP streams L) :
     ∃ s rd, Cfb.new (layoutCfb streams L) (layoutCfb streams L).length =
-        .ok (⟨parsedDirs streams L, s, L.main.fats (L.nfat * L.perFat), ⟨miniBody streams L, 64⟩, miniFatTable L⟩, rd) ∧
-      s.data ++ rd = mainBody streams L ∧ s.size = L.ss := by
+        .ok (⟨parsedDirs streams L, s, L.main.fats (L.nfat * L.perFat), ⟨miniBody streams L, 64, false⟩, miniFatTable L⟩, rd) ∧
+      s.data ++ rd = mainBody streams L ∧ s.size = L.ss ∧ s.lazy = true := by
   have hss := ss_pos L
   have hLf := layoutCfb_length streams L
   have h1 := fromReader_layout streams L (hdrFields_lt streams L hv) (hdrDifat_lt streams L hv)
@@ -1807,11 +1936,13 @@ theorem new_layout (streams : List Stream) (L : Layout) (hv : ValidP streams L) 
     have : 1 + L.total ≤ L.ss * (1 + L.total) := Nat.le_mul_of_pos_left _ hss
     omega
   obtain ⟨s1, rd1, e2, i2, z2⟩ := difatLoop_layout streams L hv L.ndif 0 (by omega) _
-    ⟨[], L.ss⟩ (mainBody streams L) hrem (by simp) rfl (by intro i hi; omega)
+    ⟨[], L.ss, true⟩ (mainBody streams L) hrem (by simp) rfl rfl (by intro i hi; omega)
+  have z1l : s1.lazy = true := difatLoop_lazy _ _ _ _ _ _ _ _ _ e2
   have hd0 : difatUpTo L 0 = hdrDifat L := by simp [difatUpTo, hdrDifat]
   rw [hd0] at e2
-  obtain ⟨s2, rd2, e3, i3, z3⟩ := loadFats_layout streams L hv (109 + L.ndif * (L.perFat - 1)) 0 s1 rd1 i2 z2
+  obtain ⟨s2, rd2, e3, i3, z3⟩ := loadFats_layout streams L hv (109 + L.ndif * (L.perFat - 1)) 0 s1 rd1 i2 z2 z1l
     (by intro j hj; simp at hj)
+  have z2l : s2.lazy = true := (loadFats_lazy _ _ _ _ _ _ _ _ e3).trans z1l
   simp only [Nat.zero_min, Nat.zero_mul, Nat.sub_zero] at e3
   have hdN' : difatUpTo L L.ndif = (List.range' 0 (109 + L.ndif * (L.perFat - 1))).map (fatIdAt L) := by
     simp [difatUpTo, List.range_eq_range']
@@ -1823,7 +1954,8 @@ theorem new_layout (streams : List Stream) (L : Layout) (hv : ValidP streams L) 
   obtain ⟨s3, rd3, e4, i4, z4⟩ := Space.getChain_gen L.main L.ss hss L.fill (mainPieces streams L) (fatSector L)
     (difSector L) (mainPieces_uniform streams L) (fatSector_length L) (difSector_length L) 0 (dirBytes streams L)
     (mainPieces_get streams L 0 _ rfl) hc0 (L.nfat * L.perFat) hv.total_fat hv.total_le s2 rd2 [] z3
-    (by rw [List.append_nil]; exact i3) ((hdrOf streams L).dirLen * L.ss)
+    (by rw [List.append_nil]; exact i3) (Or.inl z2l) ((hdrOf streams L).dirLen * L.ss)
+  have z3l : s3.lazy = true := (getChain_lazy _ _ _ _ _ _ _ _ e4).trans z2l
   rw [padChunks_flatten_exact L.ss L.fill hss _ _ (Nat.le_refl _) (by rw [hdl]; exact Nat.mul_mod_left _ _)] at e4
   rw [dir_chain_result] at e4
   · unfold Cfb.new
@@ -1852,7 +1984,8 @@ theorem new_layout (streams : List Stream) (L : Layout) (hv : ValidP streams L) 
       obtain ⟨s4, rd4, e5, i5, z5⟩ := Space.getChain_gen L.main L.ss hss L.fill (mainPieces streams L) (fatSector L)
         (difSector L) (mainPieces_uniform streams L) (fatSector_length L) (difSector_length L) 2 (miniBody streams L)
         (mainPieces_get streams L 2 _ rfl) hc2 (L.nfat * L.perFat) hv.total_fat hv.total_le s3 rd3 [] z4
-        (by rw [List.append_nil]; exact i4) (64 * L.mtotal)
+        (by rw [List.append_nil]; exact i4) (Or.inl z3l) (64 * L.mtotal)
+      have z4l : s4.lazy = true := (getChain_lazy _ _ _ _ _ _ _ _ e5).trans z3l
       rw [List.append_nil] at i5
       have hmini : (if 64 * L.mtotal > 0 then
           (padChunks L.ss L.fill (miniBody streams L).length (miniBody streams L)).flatten.take (64 * L.mtotal)
@@ -1866,18 +1999,19 @@ theorem new_layout (streams : List Stream) (L : Layout) (hv : ValidP streams L) 
       obtain ⟨s5, rd5, e6, i6, z6⟩ := Space.getChain_gen L.main L.ss hss L.fill (mainPieces streams L) (fatSector L)
         (difSector L) (mainPieces_uniform streams L) (fatSector_length L) (difSector_length L) 1 (le32s (miniFatTable L))
         (mainPieces_get streams L 1 _ rfl) hc1 (L.nfat * L.perFat) hv.total_fat hv.total_le s4 rd4 [] z5
-        (by rw [List.append_nil]; exact i5) (chainLen L.main 1 * L.ss)
+        (by rw [List.append_nil]; exact i5) (Or.inl z4l) (chainLen L.main 1 * L.ss)
+      have z5l : s5.lazy = true := (getChain_lazy _ _ _ _ _ _ _ _ e6).trans z4l
       rw [List.append_nil] at i6
       rw [padChunks_flatten_exact L.ss L.fill hss _ _ (Nat.le_refl _) (by rw [hml]; exact Nat.mul_mod_left _ _)] at e6
       rw [dir_chain_result _ _ (Or.inr (by rw [hcl, hml]))] at e6
-      refine ⟨s5, rd5, ?_, i6, z6⟩
+      refine ⟨s5, rd5, ?_, i6, z6, z5l⟩
       rw [e5]
       simp only [Res.bind_ok]
       rw [e6]
       simp only [Res.bind_ok, miniFat_u32s streams L hv]
     · simp only [hmf, if_false]
       rw [List.append_nil] at i4
-      refine ⟨s3, rd3, ?_, i4, z4⟩
+      refine ⟨s3, rd3, ?_, i4, z4, z3l⟩
       have hm0 : L.mtotal = 0 := by
         have h0 : nsect L.perFat L.mtotal = 0 := by omega
         have := le_nsect_mul L.perFat L.mtotal (by rcases ss_cases L with ⟨_, h⟩ | ⟨_, h⟩ <;> omega)
@@ -1912,7 +2046,7 @@ theorem Sectors.get_inrange (s : Sectors) (id : Nat) (rd : Bytes) (h : id * s.si
     (s.get id rd).2 = (s, rd) := by
   unfold Sectors.get
   have : ¬ (id * s.size + s.size > s.data.length) := by omega
-  simp only [this, if_false]
+  simp only [this, and_false, if_false]
 
 /-- a chain that stays inside the cached data reads nothing from the reader -/
 theorem chainLoop_follow_state (fats : List Nat) :
@@ -1961,13 +2095,14 @@ theorem Space.getChain_cached (sp : Space) (ss : Nat) (hss : 0 < ss) (fill : UIn
     (c : Nat) (D : Bytes) (hPc : P[c]? = some (pieces ss fill D))
     (hok : chainOK sp c (nsect ss D.length) = true)
     (len : Nat) (hlen : sp.owner.size ≤ len) (hres : sp.owner.size ≤ RESERVED) (rd : Bytes) (len0 : Nat) :
-    (⟨sp.body ss fill P fatSec difSec, ss⟩ : Sectors).getChain (chainStart sp c) (sp.fats len) rd len0 =
+    (⟨sp.body ss fill P fatSec difSec, ss, false⟩ : Sectors).getChain (chainStart sp c) (sp.fats len) rd len0 =
         .ok (if len0 > 0 then (padChunks ss fill D.length D).flatten.take len0
-             else (padChunks ss fill D.length D).flatten, ⟨sp.body ss fill P fatSec difSec, ss⟩, rd) := by
+             else (padChunks ss fill D.length D).flatten, ⟨sp.body ss fill P fatSec difSec, ss, false⟩, rd) := by
   obtain ⟨s', rd', he, _, _⟩ := Space.getChain_gen sp ss hss fill P fatSec difSec hP hf hd c D hPc hok len hlen hres
-    ⟨sp.body ss fill P fatSec difSec, ss⟩ rd rd rfl rfl len0
+    ⟨sp.body ss fill P fatSec difSec, ss, false⟩ rd rd rfl rfl
+    (Or.inr (by rw [Space.body_length sp ss fill P fatSec difSec hP hf hd]; exact Nat.le_refl _)) len0
   rw [he]
-  have hst : s' = ⟨sp.body ss fill P fatSec difSec, ss⟩ ∧ rd' = rd := by
+  have hst : s' = ⟨sp.body ss fill P fatSec difSec, ss, false⟩ ∧ rd' = rd := by
     unfold Sectors.getChain at he
     split at he
     · rename_i chain s'' rd'' heq
@@ -2073,10 +2208,11 @@ theorem find_stream (streams : List Stream) (L : Layout) (hv : ValidP streams L)
 structure Good (streams : List Stream) (L : Layout) (c : CfbSt) (rd : Bytes) : Prop where
   dirs : c.dirs = parsedDirs streams L
   fats : c.fats = L.main.fats (L.nfat * L.perFat)
-  mini : c.mini = ⟨miniBody streams L, 64⟩
+  mini : c.mini = ⟨miniBody streams L, 64, false⟩
   miniFats : c.miniFats = miniFatTable L
   inv : c.sectors.data ++ rd = mainBody streams L
   size : c.sectors.size = L.ss
+  lazy : c.sectors.lazy = true
 
 theorem stream_read_result (ss : Nat) (fill : UInt8) (hss : 0 < ss) (D : Bytes) :
     (if D.length > 0 then (padChunks ss fill D.length D).flatten.take D.length
@@ -2094,8 +2230,8 @@ theorem getStream_layout (streams : List Stream) (L : Layout) (hv : ValidP strea
     · exact hlt
     · rw [List.getElem?_eq_none (by omega)] at hst; cases hst
   obtain ⟨dirs, sectors, fats, mini, miniFats⟩ := c
-  obtain ⟨g1, g2, g3, g4, g5, g6⟩ := hg
-  simp only at g1 g2 g3 g4 g5 g6
+  obtain ⟨g1, g2, g3, g4, g5, g6, g7⟩ := hg
+  simp only at g1 g2 g3 g4 g5 g6 g7
   subst g1 g2 g3 g4
   unfold getStream getStreamAt
   simp only
@@ -2116,7 +2252,7 @@ theorem getStream_layout (streams : List Stream) (L : Layout) (hv : ValidP strea
     rw [miniFatTable_eq]
     unfold miniBody
     rw [this]
-    exact ⟨_, rd, rfl, ⟨rfl, rfl, rfl, rfl, g5, g6⟩⟩
+    exact ⟨_, rd, rfl, ⟨rfl, rfl, rfl, rfl, g5, g6, g7⟩⟩
   · have hge : ¬ st.data.length < 4096 := by simpa [isMini] using hm
     have hm' : isMini st = false := by simpa using hm
     simp only [hge, if_false, hm', Bool.false_eq_true]
@@ -2130,11 +2266,12 @@ theorem getStream_layout (streams : List Stream) (L : Layout) (hv : ValidP strea
     obtain ⟨s', rd', he, hi, hz⟩ := Space.getChain_gen L.main L.ss (ss_pos L) L.fill (mainPieces streams L) (fatSector L)
       (difSector L) (mainPieces_uniform streams L) (fatSector_length L) (difSector_length L) (3 + s0) st.data hP hok
       (L.nfat * L.perFat) hv.total_fat hv.total_le sectors rd [] g6
-      (by rw [List.append_nil]; exact g5) st.data.length
+      (by rw [List.append_nil]; exact g5) (Or.inl g7) st.data.length
+    have hl' := (getChain_lazy _ _ _ _ _ _ _ _ he).trans g7
     rw [stream_read_result L.ss L.fill (ss_pos L)] at he
     rw [List.append_nil] at hi
     rw [he]
-    exact ⟨_, rd', rfl, ⟨rfl, rfl, rfl, rfl, hi, hz⟩⟩
+    exact ⟨_, rd', rfl, ⟨rfl, rfl, rfl, rfl, hi, hz, hl'⟩⟩
 
 theorem hasDirectory_layout (streams : List Stream) (L : Layout) (hv : ValidP streams L) (c : CfbSt) (rd : Bytes)
     (hg : Good streams L c rd) (st : Stream) (hst : st ∈ streams) : hasDirectory c st.name = true := by
@@ -2150,8 +2287,8 @@ theorem hasDirectory_layout (streams : List Stream) (L : Layout) (hv : ValidP st
 
 theorem new_layout_good (streams : List Stream) (L : Layout) (hv : ValidP streams L) :
     ∃ c rd, Cfb.new (layoutCfb streams L) (layoutCfb streams L).length = .ok (c, rd) ∧ Good streams L c rd := by
-  obtain ⟨s, rd, he, hi, hz⟩ := new_layout streams L hv
-  exact ⟨_, rd, he, ⟨rfl, rfl, rfl, rfl, hi, hz⟩⟩
+  obtain ⟨s, rd, he, hi, hz, hl⟩ := new_layout streams L hv
+  exact ⟨_, rd, he, ⟨rfl, rfl, rfl, rfl, hi, hz, hl⟩⟩
 
 
 
@@ -2222,12 +2359,12 @@ theorem difatLoop_fuel : ∀ (fuel id : Nat) (difat : List Nat) (s : Sectors) (r
         · simp
         · rename_i hchk
           apply ih _ _ _ _ _ N
-          · rw [(Sectors.get_spec s id rd _ rfl).2.2]; exact hss
+          · rw [(Sectors.get_size s id rd)]; exact hss
           · rw [Sectors.get_conserve]; exact hN
-          · rw [(Sectors.get_spec s id rd _ rfl).2.2]
+          · rw [(Sectors.get_size s id rd)]
             have hc := Sectors.get_conserve s id rd
             omega
-          · rw [(Sectors.get_spec s id rd _ rfl).2.2]
+          · rw [(Sectors.get_size s id rd)]
             have : count + 1 + fuel = count + (fuel + 1) := by omega
             rw [this]; exact hlt
     · simp
@@ -2277,7 +2414,7 @@ theorem loadFats_params : ∀ (ids : List Nat) (s : Sectors) (rd : Bytes) (acc n
             injection h with h; injection h with h0 h; injection h with h1 h2
             obtain ⟨p1, p2, p3, p4⟩ := ih _ _ _ _ _ _ _ heq
             subst h0 h1 h2
-            refine ⟨p1.trans (Sectors.get_spec s id rd _ rfl).2.2, by rw [p2]; exact Sectors.get_conserve s id rd,
+            refine ⟨p1.trans (Sectors.get_size s id rd), by rw [p2]; exact Sectors.get_conserve s id rd,
               Nat.le_trans (Sectors.get_data_mono s id rd) p3, ?_⟩
             intro _
             have := p4 (by omega)
@@ -2364,12 +2501,12 @@ theorem new_clean (file : Bytes) (len : Nat) :
     obtain ⟨h, difat0, rd⟩ := v1
     obtain ⟨hss, hrd⟩ := fromReader_ok file h difat0 rd h1
     simp only [Res.bind_ok]
-    have c2f := difatLoop_fuel (file.length + 1) h.difatStart difat0 ⟨[], h.sectorSize⟩ rd 0 rd.length hss
+    have c2f := difatLoop_fuel (file.length + 1) h.difatStart difat0 ⟨[], h.sectorSize, true⟩ rd 0 rd.length hss
       (by simp) (by simp) (by
         simp only [Nat.zero_add]
         have : file.length + 1 ≤ (file.length + 1) * h.sectorSize := Nat.le_mul_of_pos_right _ hss
         omega)
-    cases h2 : difatLoop (file.length + 1) h.difatStart difat0 ⟨[], h.sectorSize⟩ rd 0 with
+    cases h2 : difatLoop (file.length + 1) h.difatStart difat0 ⟨[], h.sectorSize, true⟩ rd 0 with
     | err e => simp
     | panic m => exact absurd h2 (difatLoop_no_panic _ _ _ _ _ _ m)
     | outOfFuel => exact absurd h2 c2f
@@ -2531,8 +2668,8 @@ theorem regular_stream_sectors (streams : List Stream) (L : Layout) (hv : ValidP
     state holds; nothing is read from the file -/
 theorem mini_subread (streams : List Stream) (L : Layout) (hv : ValidP streams L) (s0 : Nat) (st : Stream)
     (hst : streams[s0]? = some st) (hm : isMini st = true) (rd : Bytes) :
-    (⟨miniBody streams L, 64⟩ : Sectors).getChain (chainStart L.mini s0) (miniFatTable L) rd st.data.length =
-      .ok (st.data, ⟨miniBody streams L, 64⟩, rd) := by
+    (⟨miniBody streams L, 64, false⟩ : Sectors).getChain (chainStart L.mini s0) (miniFatTable L) rd st.data.length =
+      .ok (st.data, ⟨miniBody streams L, 64, false⟩, rd) := by
   have hs0 : s0 < streams.length := by
     by_cases hlt : s0 < streams.length
     · exact hlt
@@ -2553,7 +2690,7 @@ theorem mini_subread (streams : List Stream) (L : Layout) (hv : ValidP streams L
 /-- the regular sub-read of `get_stream`: the chain is followed in the FAT over the sectors of the file -/
 theorem main_subread (streams : List Stream) (L : Layout) (hv : ValidP streams L) (s0 : Nat) (st : Stream)
     (hst : streams[s0]? = some st) (hm : isMini st = false) (s : Sectors) (rd : Bytes)
-    (hinv : s.data ++ rd = mainBody streams L) (hsz : s.size = L.ss) :
+    (hinv : s.data ++ rd = mainBody streams L) (hsz : s.size = L.ss) (hlz : s.lazy = true) :
     ∃ s' rd', s.getChain (chainStart L.main (3 + s0)) (L.main.fats (L.nfat * L.perFat)) rd st.data.length =
         .ok (st.data, s', rd') ∧ s'.data ++ rd' = mainBody streams L ∧ s'.size = L.ss := by
   have hs0 : s0 < streams.length := by
@@ -2569,7 +2706,8 @@ theorem main_subread (streams : List Stream) (L : Layout) (hv : ValidP streams L
     rw [mainData_stream streams L s0 st hst]; simp [hm]
   obtain ⟨s', rd', he, hi, hz⟩ := Space.getChain_gen L.main L.ss (ss_pos L) L.fill (mainPieces streams L) (fatSector L)
     (difSector L) (mainPieces_uniform streams L) (fatSector_length L) (difSector_length L) (3 + s0) st.data hP hok
-    (L.nfat * L.perFat) hv.total_fat hv.total_le s rd [] hsz (by rw [List.append_nil]; exact hinv) st.data.length
+    (L.nfat * L.perFat) hv.total_fat hv.total_le s rd [] hsz (by rw [List.append_nil]; exact hinv) (Or.inl hlz)
+    st.data.length
   rw [stream_read_result L.ss L.fill (ss_pos L)] at he
   rw [List.append_nil] at hi
   exact ⟨s', rd', he, hi, hz⟩
@@ -2733,7 +2871,7 @@ theorem difatLoop_length : ∀ (fuel id : Nat) (difat : List Nat) (s : Sectors) 
         split at h
         · cases h
         · rename_i hchk
-          have hsz := (Sectors.get_spec s id rd _ rfl).2.2
+          have hsz := (Sectors.get_size s id rd)
           obtain ⟨k, hk1, hk2⟩ := ih _ _ _ _ _ _ _ _ h (by rw [hsz]; omega)
           rw [hsz] at hk1 hk2
           refine ⟨k, hk1, ?_⟩
@@ -2771,9 +2909,9 @@ theorem newCost_linear (file : Bytes) : newCost file ≤ 2 * file.length + 110 :
     obtain ⟨h, difat0, rd⟩ := v1
     obtain ⟨hss, hrd⟩ := fromReader_ok file h difat0 rd h1
     have hd0 := fromReader_difat file h difat0 rd h1
-    have hc1 := difatLoopCost_le (file.length + 1) h.difatStart difat0 ⟨[], h.sectorSize⟩ rd 0
+    have hc1 := difatLoopCost_le (file.length + 1) h.difatStart difat0 ⟨[], h.sectorSize, true⟩ rd 0
     simp only
-    cases h2 : difatLoop (file.length + 1) h.difatStart difat0 ⟨[], h.sectorSize⟩ rd 0 with
+    cases h2 : difatLoop (file.length + 1) h.difatStart difat0 ⟨[], h.sectorSize, true⟩ rd 0 with
     | err e => simp only; omega
     | panic m => simp only; omega
     | outOfFuel => simp only; omega
